@@ -61,7 +61,7 @@ def stack_top(stderr):
         frames = re.findall(r'^([\w./%*()\-]+)\(.*\)\n\t(\S+):(\d+)', b, re.M)
         frames = [(f, p, l) for f, p, l in frames if not f.startswith(('panic', 'runtime.', 'reflect.', 'main.'))
                   and 'handleErr' not in f]
-        own = [(f, p, l) for f, p, l in frames if 'rhysd/actionlint' in f and 'Command' not in f]
+        own = [(f, p, l) for f, p, l in frames if 'rhysd/actionlint' in f and '(*Command)' not in f]
         if own:
             f, p, l = own[0]
             return '%s (%s:%s)' % (f.split('/')[-1], os.path.basename(p), l)
